@@ -10,8 +10,10 @@ Proved here (for every network, state with distinct addresses, action and draw):
   `pot(end) − pot(start) − Σ costs` (telescoping), and at most `pot(end) − pot(start) − unit·steps`
   when every action costs at least one unit;
 and, by kernel evaluation of concrete instances, that the full statement is **false** of the model
-(as of the implementation): `C20_star_counterexample`, `C20_negative_discovery_counterexample` —
-the two known findings.  A general proof that the advertised hop count is a lower bound on the
+(as of the implementation): `C20_star_counterexample` — the known finding (hop count); the second
+defect found here (negative discovery values) was repaired in the repository (D12) and
+`C20_negative_discovery_repaired` records both the failure of the former bound and that the
+repaired one holds on the same instance.  A general proof that the advertised hop count is a lower bound on the
 subnets that must be entered is therefore impossible; `hops ≤ minSubnets` is *evaluated* per
 scenario by the BOUND suite.
 -/
@@ -287,12 +289,26 @@ def negDvSc : Scenario :=
 
 def negDvPlan : List (Action × Rat) := [(expl (1, 0), 0), (scan (1, 0), 0), (expl (2, 0), 0)]
 
-/-- C20 is false with negative discovery values: the bound adds the discovery value of *all*
-hosts, including those discovered at reset, which are never paid -/
-theorem C20_negative_discovery_counterexample :
+/-- the defect repaired by D12, on the model: with negative discovery values the former bound (the
+sum of *all* discovery values, also of hosts discovered at reset, which are never paid) was
+exceeded by a goal-reaching episode; the repaired bound (non-negative discovery values only) is not -/
+theorem C20_negative_discovery_repaired :
     hops negDvSc = minSubnets negDvSc ∧
     goal negDvSc.net (runHist negDvSc.net negDvSc.init negDvPlan).1 = true ∧
-    (runHist negDvSc.net negDvSc.init negDvPlan).2.1 > scoreUpperBound negDvSc := by
+    (runHist negDvSc.net negDvSc.init negDvPlan).2.1 > scoreUpperBoundBeforeD12 negDvSc ∧
+    (runHist negDvSc.net negDvSc.init negDvPlan).2.1 ≤ scoreUpperBound negDvSc := by
   decide +kernel
+
+/-- the discovery part of the potential never exceeds what the repaired bound counts: whatever is
+discovered, the discovery values collected are at most the sum of the non-negative ones -/
+theorem C20_discovery_part_le (s : State) :
+    sumI (s.map fun r => if r.disc then r.dvalue else 0) ≤ sumI (s.map fun r => max 0 r.dvalue) := by
+  induction s with
+  | nil => simp
+  | cons x xs ih =>
+    simp only [List.map_cons, sumI_cons]
+    have : (if x.disc then x.dvalue else 0) ≤ max 0 x.dvalue := by
+      split <;> omega
+    omega
 
 end NASim
